@@ -114,18 +114,184 @@ CUSTOM_HELP = {
 }
 
 
-def custom_registry():
-    """IntegerCustom: the methods it inherits from IntegerNative are verified again with self: IntegerCustom (the results must
+def custom_registry(mult='mixed'):
+    """mult: operand kinds of _mult_modulo_bytes in this registry: 'int', 'obj' (three Integers) or 'mixed' (all 8 combinations).
+    IntegerCustom: the methods it inherits from IntegerNative are verified again with self: IntegerCustom (the results must
     be IntegerCustom objects and __pow__ must reach ITS inplace_pow); its own three methods against the shared clauses"""
     reg = _integer.registry(self_class=IC)
     add_custom_natives(reg)
     interface_contracts(reg, IC, FRAME['native'], names=['inplace_pow'], per_method=CUSTOM_HELP)
-    static_contracts(reg, IC, impl_cls=IC, help_={'skip_init': True, '_mult_modulo_bytes': {
+    static_contracts(reg, IC, impl_cls=IC, help_={'skip_init': True, 'mult_operand': {'int': 'int', 'obj': 'obj:' + IC}.get(mult, operand(IC)),
+                                                  '_mult_modulo_bytes': {
         # (t1 mod m)(t2 mod m) == t1 t2 (mod m), and the two instances for "only one operand was reduced"
-        'lemmas': {'exit': {'mulmod': 'mulmod_reduce(ival(term1), ival(term2), ival(modulus))',
+        'lemmas': {'exit': {'l1': 'mod_value == 1 or len(result) == numbers_len',           # proof steps over locals
+                            'l2': 'mod_value == 1 or spec.integer.is_byte_size(mod_value, numbers_len)',
+                            'mulmod': 'mulmod_reduce(ival(term1), ival(term2), ival(modulus))',
                             'mulmod1': 'mulmod_reduce(ival(term1) % ival(modulus), ival(term2), ival(modulus))',
                             'mulmod2': 'mulmod_reduce(ival(term1), ival(term2) % ival(modulus), ival(modulus))'}}}})
     return reg
+
+
+# ======================================================================================================================
+# IntegerGMP
+# ======================================================================================================================
+IG = M + '_IntegerGMP.IntegerGMP'
+GMP_MOD = M + '_IntegerGMP.'
+Z = 'obj:native.MPZ'
+U64 = '0 <= {0} and {0} < 2 ** 64'
+GMPDOC = 'GMP manual, "Integer Functions"; ' + BIGINT
+
+
+def m_new_mpz(E, st, args, kw):
+    """new_mpz(): an uninitialised mpz_t (arbitrary value until mpz_init*)"""
+    h = HObj('obj', cls=None)
+    h.ghost_id = 'native.MPZ'
+    h.fields = {'g_val': E.fresh_int('mpz_uninit')}
+    return val(st, st.alloc(h))
+
+
+def _zero_mpz(E, st):
+    h = HObj('obj', cls=None)
+    h.ghost_id = 'native.MPZ'
+    h.fields = {'g_val': 0}
+    return st.alloc(h)
+
+
+def _mpz(reg, name, params, requires=(), sets=None, returns=None, result=None, ensures=None, doc=''):
+    """an assumed contract of one __gmpz_ function: z = mpz_t, u = unsigned long / mp_bitcnt_t / size_t (already converted)"""
+    ptypes = {}
+    req = list(requires)
+    for p, k in params:
+        ptypes[p] = Z if k == 'z' else ('bytes' if k == 'b' else 'int')
+        if k == 'u':
+            req.append(U64.format(p))
+    kw = dict(params=ptypes, requires=req, assumed='%s %s' % (GMPDOC, doc))
+    if sets:
+        kw.update(sets={'%s.g_val' % k: v for k, v in sets.items()}, modifies=['%s.g_val' % k for k in sets])
+    else:
+        kw.update(modifies=[])
+    if returns is not None:
+        kw.update(returns=returns, options={'exact': True})
+    elif result is not None:
+        kw.update(result=result, ensures=ensures or {})
+    else:
+        kw.update(options={'exact': True})
+    c = reg.add(Contract('native.gmp.' + name, **kw))
+    reg.overrides[c.target] = BuiltinV(c.target, lambda E, st, args, kwa, c=c: apply_contract(E, c, st, args, kwa))
+    return c
+
+
+def add_gmp_natives(reg):
+    from vf.pyvc.values import StateGlobal
+    reg.add(ClassContract('native.MPZ', fields={'g_val': 'int'}, abstract=True))
+    reg.overrides[GMP_MOD + '_gmp'] = ModuleV('native.gmp', None)
+    reg.overrides[GMP_MOD + 'new_mpz'] = BuiltinV('native.new_mpz', m_new_mpz)
+    reg.overrides[GMP_MOD + 'c_ulong'] = BuiltinV('native.c_ulong', m_c_unsigned(64))
+    reg.overrides[GMP_MOD + 'c_size_t'] = BuiltinV('native.c_size_t', m_c_unsigned(64))
+    reg.overrides[GMP_MOD + 'c_uint8_ptr'] = BuiltinV('native.c_uint8_ptr', lambda E, st, args, kw: val(st, args[0]))
+    reg.overrides[GMP_MOD + 'len'] = BuiltinV('len', m_len_ssize)
+    reg.overrides[GMP_MOD + '_sys_bits'] = 64
+    reg.overrides[IG + '._zero_mpz_p'] = StateGlobal('gmp_zero_mpz', _zero_mpz)
+    A, B = 'a.g_val', 'b.g_val'
+    _mpz(reg, 'mpz_init', [('x', 'z')], sets={'x': '0'})
+    _mpz(reg, 'mpz_init_set', [('r', 'z'), ('a', 'z')], sets={'r': A})
+    _mpz(reg, 'mpz_init_set_ui', [('r', 'z'), ('v', 'u')], sets={'r': 'v'})
+    _mpz(reg, 'mpz_set', [('r', 'z'), ('a', 'z')], sets={'r': A})
+    _mpz(reg, 'mpz_set_ui', [('r', 'z'), ('v', 'u')], sets={'r': 'v'})
+    _mpz(reg, 'mpz_clear', [('x', 'z')])
+    _mpz(reg, 'mpz_get_ui', [('a', 'z')], returns='abs(a.g_val) % 2 ** 64', doc='(least significant bits of the absolute value)')
+    for nm, expr in (('add', '%s + %s'), ('sub', '%s - %s'), ('mul', '%s * %s')):
+        _mpz(reg, 'mpz_' + nm, [('r', 'z'), ('a', 'z'), ('b', 'z')], sets={'r': expr % (A, B)})
+        _mpz(reg, 'mpz_%s_ui' % nm, [('r', 'z'), ('a', 'z'), ('v', 'u')], sets={'r': expr % (A, 'v')})
+    _mpz(reg, 'mpz_addmul', [('r', 'z'), ('a', 'z'), ('b', 'z')], sets={'r': 'old(r.g_val) + %s * %s' % (A, B)})
+    _mpz(reg, 'mpz_addmul_ui', [('r', 'z'), ('a', 'z'), ('v', 'u')], sets={'r': 'old(r.g_val) + %s * v' % A})
+    _mpz(reg, 'mpz_submul_ui', [('r', 'z'), ('a', 'z'), ('v', 'u')], sets={'r': 'old(r.g_val) - %s * v' % A})
+    _mpz(reg, 'mpz_neg', [('r', 'z'), ('a', 'z')], sets={'r': '-%s' % A})
+    _mpz(reg, 'mpz_abs', [('r', 'z'), ('a', 'z')], sets={'r': 'abs(%s)' % A})
+    _mpz(reg, 'mpz_cmp', [('a', 'z'), ('b', 'z')], result='int',
+         ensures={'sign': 'all_of((result < 0) == (%s < %s), (result == 0) == (%s == %s), (result > 0) == (%s > %s))' % (A, B, A, B, A, B)},
+         doc='(a positive, zero or negative value)')
+    _mpz(reg, 'mpz_powm', [('r', 'z'), ('a', 'z'), ('e', 'z'), ('m', 'z')], requires=['e.g_val >= 0', 'm.g_val > 0'],
+         sets={'r': 'modpow(%s, e.g_val, m.g_val)' % A})
+    _mpz(reg, 'mpz_powm_ui', [('r', 'z'), ('a', 'z'), ('e', 'u'), ('m', 'z')], requires=['m.g_val > 0'], sets={'r': 'modpow(%s, e, m.g_val)' % A})
+    _mpz(reg, 'mpz_pow_ui', [('r', 'z'), ('a', 'z'), ('e', 'u')], sets={'r': 'ipow(%s, e)' % A})
+    _mpz(reg, 'mpz_mod', [('r', 'z'), ('a', 'z'), ('b', 'z')], requires=['%s != 0' % B], sets={'r': '%s %% abs(%s)' % (A, B)},
+         doc='(the result is always non-negative)')
+    _mpz(reg, 'mpz_fdiv_q', [('r', 'z'), ('a', 'z'), ('b', 'z')], requires=['%s != 0' % B], sets={'r': '%s // %s' % (A, B)})
+    _mpz(reg, 'mpz_fdiv_q_2exp', [('r', 'z'), ('a', 'z'), ('v', 'u')], sets={'r': '%s // pow2(v)' % A})
+    _mpz(reg, 'mpz_mul_2exp', [('r', 'z'), ('a', 'z'), ('v', 'u')], sets={'r': '%s * pow2(v)' % A})
+    _mpz(reg, 'mpz_and', [('r', 'z'), ('a', 'z'), ('b', 'z')], sets={'r': 'bitand(%s, %s)' % (A, B)})
+    _mpz(reg, 'mpz_ior', [('r', 'z'), ('a', 'z'), ('b', 'z')], sets={'r': 'bitor(%s, %s)' % (A, B)})
+    _mpz(reg, 'mpz_tstbit', [('a', 'z'), ('v', 'u')], returns='(%s // pow2(v)) %% 2' % A, doc="(two's complement for negative values)")
+    _mpz(reg, 'mpz_sizeinbase', [('a', 'z'), ('base', 'i')], requires=['base == 2'],
+         returns='(1 if %s == 0 else bitlen(%s))' % (A, A), doc='(number of bits of |a|; 1 for zero)')
+    _mpz(reg, 'mpz_gcd', [('r', 'z'), ('a', 'z'), ('b', 'z')], sets={'r': 'gcd(%s, %s)' % (A, B)})
+    _mpz(reg, 'mpz_gcd_ui', [('r', 'z'), ('a', 'z'), ('v', 'u')], sets={'r': 'gcd(%s, v)' % A}, doc='(return value not used)')
+    _mpz(reg, 'mpz_lcm', [('r', 'z'), ('a', 'z'), ('b', 'z')],
+         sets={'r': '(0 if (%s == 0 or %s == 0) else abs(%s * %s) // gcd(%s, %s))' % (A, B, A, B, A, B)})
+    # mpz_invert: non-zero iff the inverse exists; then 0 <= r < |m| and a*r == 1 (mod m)  (r == 0 only in the zero ring |m| == 1)
+    _mpz(reg, 'mpz_invert', [('r', 'z'), ('a', 'z'), ('b', 'z')], requires=['%s != 0' % B], result='int',
+         ensures={'exists': '(result != 0) == (gcd(old(%s), %s) == 1)' % (A, B),
+                  'inverse': 'imp(result != 0, all_of(0 <= r.g_val, r.g_val < abs(%s), (old(%s) * r.g_val - 1) %% %s == 0))' % (B, A, B)},
+         doc='(r and a may be the same variable)')
+    reg.contracts['native.gmp.mpz_invert'].modifies = ['r.g_val']
+    _mpz(reg, 'mpz_divisible_p', [('a', 'z'), ('b', 'z')], result='int',
+         ensures={'div': '(result != 0) == (%s == 0 if %s == 0 else %s %% %s == 0)' % (A, B, A, B)}, doc='(only 0 is divisible by 0)')
+    _mpz(reg, 'mpz_divisible_ui_p', [('a', 'z'), ('v', 'u')], requires=['v != 0'], result='int',
+         ensures={'div': '(result != 0) == (%s %% v == 0)' % A})
+    _mpz(reg, 'mpz_import', [('r', 'z'), ('count', 'u'), ('order', 'i'), ('size', 'u'), ('endian', 'i'), ('nails', 'u'), ('data', 'b')],
+         requires=['order == 1', 'size == 1', 'nails == 0', 'count == len(data)'], sets={'r': 'be(data)'},
+         doc='(most significant word first, 1-byte words)')
+    return reg
+
+
+# wrappers whose Python code is outside the PYVC subset or whose loops are not proved: assumed with the shared clauses
+GMP_ASSUMED = {
+    '__init__': 'NOT PROVED: 32-bit slot loop over mpz_set_ui/mpz_mul_2exp/mpz_add (invariant over 2**(32*slots)); ' + BIGINT,
+    '__int__': 'NOT PROVED: 32-bit slot loop over mpz_get_ui/mpz_tdiv_q_2exp with `value |= lsb << (slot * 32)`; ' + BIGINT,
+    'to_bytes': 'NOT PROVED: list comprehension and struct format of symbolic length (limb export); ' + BIGINT,
+}
+GMP_NAMES = [n for n in CLAUSES if n not in ('to_bytes', '__int__', 'lcm')] + ['lcm']
+GMP_RENAME = {'__mul__': {'factor': 'term'}, '__imod__': {'term': 'divisor'}}
+
+# Two deliberate resource guards of the GMP back end are KNOWN findings (F4, F6; not repaired).  Each is split off into its own
+# obligation: the `raises` clause admits the guard, and an `on_raise` clause -- the one listed in known_findings.jsonl -- says
+# that the guard case must not raise.  Together they are exactly the shared clause (ValueError only for a negative exponent /
+# modulus, resp. a negative shift count), so nothing is weakened: the rest of the domain has to verify.
+_POW_GUARD = '(modulus is None and ival(exponent) > 256)'
+_POW_RAISES = {'ValueError': ('only_if', 'ival(exponent) < 0 or (modulus is not None and ival(modulus) < 0) or ' + _POW_GUARD),
+               'ZeroDivisionError': CLAUSES['inplace_pow']['raises']['ZeroDivisionError']}
+_POW_KNOWN = {'ValueError': ['not (modulus is None and ival(exponent) > 256)']}       # F4: exact_large_exponent
+_SHIFT_RAISES = {'ValueError': ('iff', 'ival(pos) < 0 or ival(pos) >= 65536')}
+_SHIFT_KNOWN = {'ValueError': ['ival(pos) < 65536']}                                     # F6: exact_large_shift
+GMP_HELP = {
+    'inplace_pow': {'raises': _POW_RAISES, 'on_raise': _POW_KNOWN},
+    '__pow__': {'raises': _POW_RAISES, 'on_raise': _POW_KNOWN},
+    '__lshift__': {'raises': _SHIFT_RAISES, 'on_raise': _SHIFT_KNOWN},
+    '__ilshift__': {'raises': _SHIFT_RAISES, 'on_raise': _SHIFT_KNOWN},
+    'size_in_bits': {'options': {'int_lemmas': []}}, 'size_in_bytes': {'options': {'int_lemmas': []}},
+}
+
+
+def gmp_registry():
+    reg = _integer.registry()
+    add_gmp_natives(reg)
+    reg.add(ClassContract(IG, fields={'_mpz_p': Z, '_initialized': 'bool'}, valid=['self._initialized']))
+    T = operand(IG)
+    # the constructor: creates the mpz (callers see a fresh, initialised object carrying the value)
+    reg.add(Contract(IG + '.__init__', params={'value': T}, raises={}, ensures={'value': 'ival(self) == ival(value)', 'init': 'self._initialized'},
+                     modifies=['self._mpz_p', 'self._initialized'], assumed=GMP_ASSUMED['__init__']))
+    reg.add(Contract(IG + '.__int__', params={}, raises={}, returns='self._mpz_p.g_val', modifies=[], options={'exact': True},
+                     assumed=GMP_ASSUMED['__int__']))
+    d = CLAUSES['to_bytes']
+    reg.add(Contract(IG + '.to_bytes', params={'block_size': 'nat', 'byteorder': ORDER}, raises=d['raises'], ensures=d['ensures'], modifies=[],
+                     result='bytes', assumed=GMP_ASSUMED['to_bytes']))
+    interface_contracts(reg, IG, FRAME['gmp'], names=GMP_NAMES, per_method=GMP_HELP, rename=GMP_RENAME)
+    static_contracts(reg, IG, impl_cls=IG, help_={'skip_init': True, '_mult_modulo_bytes': {'options': {'int_lemmas': []}}})
+    return reg
+
+
+GMP_STATIC = ['from_bytes', '_mult_modulo_bytes']
 
 
 CUSTOM_OWN = ['inplace_pow', 'from_bytes', '_mult_modulo_bytes']
@@ -140,6 +306,16 @@ def units(prop, tier):
     for i in range(0, len(inherited), 4):
         grp = inherited[i:i + 4]
         out.append(pyvc_unit(prop, 'int.custom.inherited.' + '+'.join(g.strip('_') for g in grp), custom_registry, [IN + '.' + g for g in grp]))
+    names = GMP_NAMES + GMP_STATIC
+    for i in range(0, len(names), 4):
+        grp = names[i:i + 4]
+        out.append(pyvc_unit(prop, 'int.gmp.' + '+'.join(g.strip('_') for g in grp), gmp_registry, [IG + '.' + g for g in grp]))
+    import functools
     for n in CUSTOM_OWN:
+        if n == '_mult_modulo_bytes':
+            # (about 1 minute per operand combination: int / Integer operands in quick, all 8 combinations in thorough)
+            for m in (('int', 'obj') if tier == 'quick' else ('int', 'obj', 'mixed')):
+                out.append(pyvc_unit(prop, 'int.custom.%s.%s' % (n, m), functools.partial(custom_registry, m), [IC + '.' + n]))
+            continue
         out.append(pyvc_unit(prop, 'int.custom.' + n, custom_registry, [IC + '.' + n]))
     return out
